@@ -10,7 +10,7 @@ use crate::ctx::{fbits, Ctx};
 use crate::jsonproto;
 use crate::rng::Rng;
 use crate::search::*;
-use crate::searchprops::{admissible_setting, bellman_ford, close, oracle_c03_inner, stale_link_witness};
+use crate::searchprops::{admissible_setting, bellman_ford, close, limits, oracle_c01, oracle_c03, oracle_c03_inner, oracle_c04, short, stale_link_witness};
 use routee_compass_core::algorithm::search::a_star::a_star_algorithm::verif_hook;
 use routee_compass_core::algorithm::search::direction::Direction;
 use routee_compass_core::algorithm::search::ksp::ksp_termination_criteria::KspTerminationCriteria;
@@ -188,12 +188,13 @@ fn fix_scheds_single_via(kc: &KCase, ex: &mut KExec) {
     if s == t {
         return;
     }
-    let ok = matches!(ex.outcome, Outcome::Ok(_));
+    // a failed reverse run no longer fails the query: the result then carries the forward tree alone
+    let both_trees = matches!(&ex.outcome, Outcome::Ok(r) if r.trees.len() == 2);
     if ex.scheds.len() >= 2 {
         // the reverse run started, so the forward run returned Ok
         ex.scheds[0].push(t);
         // every failure after a successful reverse run happens inside the loop, after a recorded pop
-        if ok || !ex.pops.is_empty() {
+        if both_trees || !ex.pops.is_empty() {
             ex.scheds[1].push(s);
         }
     }
@@ -608,7 +609,8 @@ pub fn corpus() -> Vec<KCase> {
     c.base.target = Some(13);
     c.k_default = 3;
     v.push(c);
-    // turn restriction: the DESIGN §7 shape — single-via alternatives may take a listed turn
+    // turn restriction: the DESIGN §7 shape — single-via alternatives took a listed turn (repaired bfda969:
+    // the witness stays, a regression is a VIOLATION under the same key)
     v.push(restricted_turn_witness());
     // the reverse search validates turn pairs in the wrong order: 0 -e0-> 1 -e1-> 2 with the pair (e1, e0)
     // listed (a turn no route can take) — the reverse search refuses e0 after e1 and reports "no path"
@@ -759,8 +761,8 @@ fn two_by_three_grid() -> SCase {
 
 /// 0 -e0-> 1 -e1-> 4 (short) and 0 -e2-> 2 -e3-> 3 -e4-> 4 (long); the turn (3,4) is restricted.
 /// Plain Dijkstra never takes (3,4); the single-via alternative is the concatenation of the forward
-/// path to an intersection vertex and the reverse path from it, whose junction turn is never tested
-/// and whose reverse half was validated with the pair reversed.
+/// path to an intersection vertex and the reverse path from it, whose junction turn was never tested
+/// and whose reverse half was validated with the pair reversed — until bfda969 (`route_is_permitted`).
 pub fn restricted_turn_witness() -> KCase {
     let mut b = base_case(vec![(0, 1, 1.0), (1, 4, 1.0), (0, 2, 2.0), (2, 3, 2.0), (3, 4, 2.0)], 5, 0, 4);
     b.frontier = vec![Fr::TurnRestriction(vec![(3, 4)])];
@@ -783,7 +785,29 @@ fn gen_shape(rng: &mut Rng, max_v: usize) -> (Vec<(f32, f32)>, Vec<(usize, usize
             pairs.push((b, a));
         }
     };
-    match rng.below(4) {
+    match rng.below(5) {
+        4 => {
+            // one-way trunk with one-way detour cycles hanging off it (lollipops): y -> v -> x with x before y,
+            // so that the forward path to v and the reverse path from v share the trunk edges x .. y
+            let n = 3 + rng.below(max_v.max(6) / 2);
+            for i in 0..n {
+                coords.push(lattice(i, 0));
+                if i > 0 {
+                    pairs.push((i - 1, i));
+                }
+            }
+            for _ in 0..(1 + rng.below(3)) {
+                let x = rng.below(n - 1);
+                let y = x + 1 + rng.below(n - 1 - x);
+                coords.push(lattice(y, 1));
+                let v = coords.len() - 1;
+                pairs.push((y, v));
+                pairs.push((v, x));
+                if rng.chance(1, 3) {
+                    pairs.push((v, y)); // a way back as well
+                }
+            }
+        }
         0 => {
             // chain of diamonds: hub_i -> {mid_i1 .. mid_iw} -> hub_{i+1}
             let n = 1 + rng.below(3);
@@ -1064,23 +1088,26 @@ pub fn child_main(args: &[String]) {
     let tier = if quick { crate::ctx::Tier::Quick } else { crate::ctx::Tier::Thorough };
     let mut ctx = Ctx::new(seed, tier, None, None);
     let corpus = corpus();
-    let mut kc = case_at(seed, quick, k, &corpus);
+    let stream = args.get(5).and_then(|x| Stream::from_name(x)).unwrap_or(Stream::C13);
+    let j: usize = args.get(6).and_then(|x| x.parse().ok()).unwrap_or(k);
+    let mut kc = if stream == Stream::C13 { case_at(seed, quick, k, &corpus) } else { prop_case_at(stream, seed, quick, j) };
     if let Some(ko) = args.get(4).and_then(|x| x.parse::<usize>().ok()) {
         // schedule-recovery run (see `recover_schedules`): same case, smaller k
         kc.k_default = ko;
         kc.query_k = None;
     }
-    let scheds = run_yen_child(&mut ctx, k, &kc);
+    let scheds = run_yen_child(&mut ctx, k, &kc, stream);
     let text: Vec<String> = scheds.iter().map(|s| s.iter().map(|v| v.to_string()).collect::<Vec<_>>().join(" ")).collect();
     std::fs::create_dir_all(&dir).expect("child dir");
     std::fs::write(format!("{}/scheds.txt", dir), text.join("\n")).expect("write scheds");
     ctx.write(&dir, "C13", "").expect("write child outputs");
 }
 
-fn run_yen_child(ctx: &mut Ctx, idx: usize, kc: &KCase) -> Vec<Vec<usize>> {
+fn run_yen_child(ctx: &mut Ctx, idx: usize, kc: &KCase, stream: Stream) -> Vec<Vec<usize>> {
     let c = &kc.base;
     let Ok(mut b) = build(c) else { return vec![] };
     let (plain, _) = plain_run(kc, &b);
+    let b_unwrapped_frontier = b.si.frontier_model.clone();
     let exhausted = Arc::new(AtomicBool::new(false));
     b.si.frontier_model = Arc::new(BudgetFrontier {
         inner: b.si.frontier_model.clone(),
@@ -1107,6 +1134,30 @@ fn run_yen_child(ctx: &mut Ctx, idx: usize, kc: &KCase) -> Vec<Vec<usize>> {
     }
     let line = encode_k(kc, &b, &ex.scheds, &[]);
     let out = if diverged { "diverges".to_string() } else { outcome_line(&ex.outcome) };
+    if stream != Stream::C13 {
+        // a search property's KSP stream: only runs that return, judged by that property's own oracle
+        if diverged {
+            return ex.scheds;
+        }
+        ctx.emit(idx, line, out);
+        describe_k(ctx, kc);
+        // the unlimited twin of a C10 case, under the same call budget
+        let unlimited = if stream == Stream::C10 {
+            let mut k2 = kc.clone();
+            k2.base.term = Term::Combined(vec![]);
+            build(&k2.base).ok().and_then(|mut b2| {
+                let exhausted2 = Arc::new(AtomicBool::new(false));
+                b2.si.frontier_model = Arc::new(BudgetFrontier { inner: b2.si.frontier_model.clone(), calls: AtomicU64::new(0), budget: YEN_FRONTIER_BUDGET, exhausted: exhausted2.clone() });
+                let e2 = exec_ksp(&k2, &b2, &k2.sim);
+                if exhausted2.load(Ordering::Relaxed) { None } else { Some(e2.outcome) }
+            })
+        } else {
+            None
+        };
+        let _ = &b_unwrapped_frontier;
+        apply_prop_oracle(ctx, idx, stream, kc, &b, &ex, unlimited.as_ref());
+        return ex.scheds;
+    }
     ctx.emit(idx, line, out.clone());
     describe_k(ctx, kc);
     ctx.count_n("underlying_searches", ex.runs as u64);
@@ -1168,7 +1219,7 @@ fn recover_schedules(seed: u64, quick: bool, idx: usize, kc: &KCase, base_dir: &
     let k = effective_k(kc)?;
     for ko in (1..k).rev() {
         let dir = format!("{}_k{}", base_dir, ko);
-        let Ok(mut child) = spawn_child(seed, quick, idx, &dir, Some(ko)) else { continue };
+        let Ok(mut child) = spawn_child(seed, quick, idx, &dir, Some(ko), Stream::C13, idx) else { continue };
         let t0 = std::time::Instant::now();
         let mut done = false;
         while (t0.elapsed().as_millis() as u64) < YEN_TIMEOUT_MS {
@@ -1199,20 +1250,24 @@ fn recover_schedules(seed: u64, quick: bool, idx: usize, kc: &KCase, base_dir: &
 
 struct Pending {
     idx: usize,
+    stream: Stream,
+    j: usize,
     kc: KCase,
     dir: String,
     child: std::process::Child,
     started: std::time::Instant,
 }
 
-fn spawn_child(seed: u64, quick: bool, idx: usize, dir: &str, k_override: Option<usize>) -> std::io::Result<std::process::Child> {
+fn spawn_child(seed: u64, quick: bool, idx: usize, dir: &str, k_override: Option<usize>, stream: Stream, j: usize) -> std::io::Result<std::process::Child> {
     use std::os::unix::process::CommandExt;
     let exe = std::env::current_exe()?;
     let mut cmd = std::process::Command::new(exe);
     cmd.arg("C13-child").arg(seed.to_string()).arg(if quick { "1" } else { "0" }).arg(idx.to_string()).arg(dir);
-    if let Some(ko) = k_override {
-        cmd.arg(ko.to_string());
-    }
+    match k_override {
+        Some(ko) => cmd.arg(ko.to_string()),
+        None => cmd.arg("-"),
+    };
+    cmd.arg(stream.name()).arg(j.to_string());
     cmd.stdin(std::process::Stdio::null()).stdout(std::process::Stdio::null()).stderr(std::process::Stdio::null());
     unsafe {
         cmd.pre_exec(|| {
@@ -1236,14 +1291,14 @@ fn finish_child(ctx: &mut Ctx, p: Pending, status: Option<std::process::ExitStat
     // a timeout on a route of three or more edges is unexpected enough to be confirmed with a
     // threefold budget before it is believed (a busy machine must not look like a divergence)
     let mut status = status;
-    if status.is_none() {
+    if status.is_none() && p.stream == Stream::C13 {
         let long_route = build(&p.kc.base).ok().map_or(false, |b| {
             let (plain, _) = plain_run(&p.kc, &b);
             matches!(plain_route_len(&p.kc, &plain), Some(l) if l >= 3)
         });
         if long_route {
             let _ = std::fs::remove_dir_all(&p.dir);
-            if let Ok(mut child) = spawn_child(ctx.seed, ctx.quick(), p.idx, &p.dir, None) {
+            if let Ok(mut child) = spawn_child(ctx.seed, ctx.quick(), p.idx, &p.dir, None, p.stream, p.j) {
                 let t0 = std::time::Instant::now();
                 while (t0.elapsed().as_millis() as u64) < 3 * YEN_TIMEOUT_MS {
                     if let Ok(Some(st)) = child.try_wait() {
@@ -1273,6 +1328,7 @@ fn finish_child(ctx: &mut Ctx, p: Pending, status: Option<std::process::ExitStat
                 ctx.nontrivial(&out);
             }
         }
+        let case = if p.stream == Stream::C13 { case } else { format!("ksp {}", case) };
         ctx.emit(p.idx, case, out);
         for l in read("oracle.txt").lines() {
             let mut parts = l.splitn(3, ' ');
@@ -1287,6 +1343,9 @@ fn finish_child(ctx: &mut Ctx, p: Pending, status: Option<std::process::ExitStat
                 }
             }
         }
+    } else if p.stream != Stream::C13 {
+        // a search property's stream only takes Yen runs that return
+        ctx.count("ksp_yen_case_without_return_skipped");
     } else {
         // killed (timeout), out of address space (abort), or build refused
         let kc = &p.kc;
@@ -1339,19 +1398,23 @@ fn finish_child(ctx: &mut Ctx, p: Pending, status: Option<std::process::ExitStat
 }
 
 fn run_yen_batch(ctx: &mut Ctx, items: Vec<(usize, KCase)>) {
+    run_yen_batch_stream(ctx, Stream::C13, items.into_iter().map(|(idx, kc)| (idx, idx, kc)).collect())
+}
+
+fn run_yen_batch_stream(ctx: &mut Ctx, stream: Stream, items: Vec<(usize, usize, KCase)>) {
     let base = std::env::temp_dir().join(format!("cvh_c13_{}", std::process::id()));
     let _ = std::fs::create_dir_all(&base);
     let max_par = 12;
-    let mut queue: std::collections::VecDeque<(usize, KCase)> = items.into();
+    let mut queue: std::collections::VecDeque<(usize, usize, KCase)> = items.into();
     let mut running: Vec<Pending> = vec![];
     let quick = ctx.quick();
     let seed = ctx.seed;
     while !queue.is_empty() || !running.is_empty() {
         while running.len() < max_par {
-            let Some((idx, kc)) = queue.pop_front() else { break };
+            let Some((idx, j, kc)) = queue.pop_front() else { break };
             let dir = base.join(idx.to_string()).to_string_lossy().to_string();
-            match spawn_child(seed, quick, idx, &dir, None) {
-                Ok(child) => running.push(Pending { idx, kc, dir, child, started: std::time::Instant::now() }),
+            match spawn_child(seed, quick, idx, &dir, None, stream, j) {
+                Ok(child) => running.push(Pending { idx, stream, j, kc, dir, child, started: std::time::Instant::now() }),
                 Err(e) => ctx.fail(idx, "harness/spawn-failed", e.to_string()),
             }
         }
@@ -1387,6 +1450,456 @@ fn run_yen_batch(ctx: &mut Ctx, items: Vec<(usize, KCase)>) {
         }
     }
     let _ = std::fs::remove_dir_all(&base);
+}
+
+// ---------------------------------------------------------------------------------------------
+// k-shortest-paths streams of the search properties C01 C03 C04 C10 (called from searchprops::run):
+// the same machinery, cases emitted as ordinary correspondence cases whose line starts with `ksp`,
+// and every returned route judged by THAT property's own oracle.  Yen's known defects must not raise
+// alarms there: only its first route is judged (C01 C03 C04), and only runs that return are taken.
+
+#[derive(Clone, Copy, PartialEq, Eq, Debug)]
+pub enum Stream {
+    C13,
+    C01,
+    C03,
+    C04,
+    C10,
+}
+
+impl Stream {
+    pub fn name(&self) -> &'static str {
+        match self {
+            Stream::C13 => "C13",
+            Stream::C01 => "C01",
+            Stream::C03 => "C03",
+            Stream::C04 => "C04",
+            Stream::C10 => "C10",
+        }
+    }
+    pub fn from_name(s: &str) -> Option<Stream> {
+        [Stream::C13, Stream::C01, Stream::C03, Stream::C04, Stream::C10].into_iter().find(|x| x.name() == s)
+    }
+    fn tag(&self) -> u64 {
+        match self {
+            Stream::C13 => 13,
+            Stream::C01 => 1301,
+            Stream::C03 => 1303,
+            Stream::C04 => 1304,
+            Stream::C10 => 1310,
+        }
+    }
+}
+
+/// hand-written cases of a stream (the shapes on which a change of the KSP code shows under that property)
+fn prop_corpus(s: Stream) -> Vec<KCase> {
+    let mut v = vec![];
+    match s {
+        Stream::C01 => {
+            // lollipop: trunk 0 -> 1 -> 2 -> 3 and the one-way detour 2 -> 4 -> 1; the single-via candidate
+            // through 4 is 0,1,2,4,1,2,3 (edge 1->2 twice) and must be refused by the loop test
+            let mut c = kcase(base_case(vec![(0, 1, 1.0), (1, 2, 1.0), (2, 3, 1.0), (2, 4, 1.0), (4, 1, 0.5)], 5, 0, 3), "c01-lollipop");
+            c.k_default = 3;
+            v.push(c);
+            // edge-oriented single-via with three and more routes: every route carries the origin and
+            // destination edge.  3 x 3 grid, both directions, slightly different lengths; origin edge 9 -> 0,
+            // destination edge 8 -> 10
+            for k in [3usize, 4, 6] {
+                let mut e = vec![];
+                let mut l = 1.0;
+                for j in 0..3usize {
+                    for i in 0..3usize {
+                        let a = 3 * j + i;
+                        if i + 1 < 3 {
+                            e.push((a, a + 1, l));
+                            e.push((a + 1, a, l));
+                            l += 0.07;
+                        }
+                        if j + 1 < 3 {
+                            e.push((a, a + 3, l));
+                            e.push((a + 3, a, l));
+                            l += 0.05;
+                        }
+                    }
+                }
+                let origin = e.len();
+                e.push((9, 0, 1.0));
+                e.push((8, 10, 1.0));
+                let mut c = kcase(base_case(e, 11, 0, 0), "c01-grid-edge-oriented");
+                c.base.edge_oriented = true;
+                c.base.source = origin;
+                c.base.target = Some(origin + 1);
+                c.k_default = k;
+                v.push(c);
+            }
+            // the same through Yen with k = 1 (first route only is judged)
+            let mut c = ycase(two_by_three_grid(), 1, "c01-grid-edge-oriented-yen");
+            c.base.edge_oriented = true;
+            c.base.source = 0;
+            c.base.target = Some(13);
+            v.push(c);
+        }
+        Stream::C03 => {
+            // tsp 0 -> 4 -> 3; alternative 0 -e2-> 1 -e3-> 2 -e4-> 3 through via vertex 2 (popped first: its
+            // priority 2 * 0.4 is the lowest): forward half e2 (east), e3 (north) bends, junction e3 -> e4 is
+            // a right turn (5 s), whereas e2 -> e4 would be no turn (0 s)
+            let mut b = base_case(vec![(0, 4, 1.0), (4, 3, 1.0), (0, 1, 1.0), (1, 2, 0.4), (2, 3, 1.5)], 5, 0, 3);
+            b.feats.push(("time".into(), FeatK::T(TimeUnit::Seconds), 0.0));
+            let mut delays = [Some(0.0); 8];
+            delays[3] = Some(5.0); // right
+            delays[4] = Some(7.0); // left
+            b.access = Acc::Turn {
+                tu: TimeUnit::Seconds,
+                headings: vec![(90, None), (90, None), (90, None), (0, None), (90, None)],
+                delays,
+            };
+            let mut c = kcase(b, "c03-junction-turn-delay");
+            c.bf_ok = false;
+            v.push(c);
+        }
+        Stream::C04 => {
+            v.push(restricted_turn_witness());
+            // the same through the edge-oriented wrapper: origin edge 5 (5 -> 0), destination edge 6 (4 -> 6)
+            let mut b = base_case(vec![(0, 1, 1.0), (1, 4, 1.0), (0, 2, 2.0), (2, 3, 2.0), (3, 4, 2.0), (5, 0, 1.0), (4, 6, 1.0)], 7, 0, 4);
+            b.frontier = vec![Fr::TurnRestriction(vec![(3, 4)])];
+            b.edge_oriented = true;
+            b.source = 5;
+            b.target = Some(6);
+            let mut c = kcase(b, "c04-restricted-turn-edge-oriented");
+            c.bf_ok = false;
+            v.push(c);
+        }
+        Stream::C10 => {
+            // Yen: 0 -> 1 -> 2 -> 3 -> 4, a six-edge detour from 1, a two-edge detour from 2; an iteration limit
+            // that the first search respects and the spur search from 1 exceeds: the query is `terminated`
+            // (the detours start with a long edge, so the first search — 4 expansions — never enters them;
+            // the spur search from 1 needs 6 expansions, the one from 2 needs 2)
+            let edges = vec![
+                (0, 1, 1.0), (1, 2, 1.0), (2, 3, 1.0), (3, 4, 1.0),
+                (1, 5, 10.0), (5, 6, 1.0), (6, 7, 1.0), (7, 8, 1.0), (8, 9, 1.0), (9, 4, 1.0),
+                (2, 10, 10.0), (10, 4, 2.0),
+            ];
+            for lim in [4u64, 5, 6, 7, 30] {
+                let mut b = base_case(edges.clone(), 11, 0, 4);
+                b.term = Term::Iters(lim);
+                v.push(ycase(b, 2, "c10-yen-spur-search-limited"));
+            }
+            // single-via under limits on the grid
+            for t in [Term::Iters(3), Term::Iters(6), Term::Size(3), Term::Size(50)] {
+                let mut c = kcase(two_by_three_grid(), "c10-grid-limited");
+                c.base.term = t;
+                c.k_default = 3;
+                v.push(c);
+            }
+        }
+        Stream::C13 => {}
+    }
+    v
+}
+
+/// case `j` of a property's KSP stream: a pure function of (stream, seed, tier, j)
+pub fn prop_case_at(s: Stream, seed: u64, quick: bool, j: usize) -> KCase {
+    let corpus = prop_corpus(s);
+    if j < corpus.len() {
+        return corpus[j].clone();
+    }
+    let mut rng = Rng::for_case(seed, s.tag(), j as u64);
+    let style = match (s, rng.below(3)) {
+        (Stream::C10, 0) => LenStyle::Generic, // ties in the intersection queue would make the unlimited twin differ
+        (_, 0) => LenStyle::TieHeavy,
+        (_, 1) => LenStyle::Generic,
+        _ => LenStyle::Metric,
+    };
+    let max_v = if quick { 10 } else { *rng.pick(&[10usize, 14, 24]) };
+    let opts = GenOpts {
+        max_v,
+        len_style: style,
+        allow_access: matches!(s, Stream::C01 | Stream::C03 | Stream::C10),
+        allow_frontier: matches!(s, Stream::C01 | Stream::C04),
+        allow_term: matches!(s, Stream::C10),
+        allow_speed: true,
+        state_indep_cost: false,
+    };
+    let (coords, pairs) = gen_shape(&mut rng, max_v);
+    let edges = lengths(&mut rng, &coords, pairs, style);
+    let mut base = gen_case_on(&mut rng, &opts, coords, edges);
+    let n_v = base.coords.len();
+    let n_e = base.edges.len();
+    base.reverse = false;
+    base.edge_oriented = rng.chance(1, 3);
+    if base.edge_oriented {
+        // an origin edge near the start and a destination edge near the end of the shape
+        let outs: Vec<usize> = (0..n_e).filter(|e| base.edges[*e].0 == 0).collect();
+        let ins: Vec<usize> = (0..n_e).filter(|e| base.edges[*e].1 == n_v - 1).collect();
+        base.source = if !outs.is_empty() && rng.chance(2, 3) { *rng.pick(&outs) } else { rng.below(n_e) };
+        base.target = Some(if !ins.is_empty() && rng.chance(2, 3) { *rng.pick(&ins) } else { rng.below(n_e) });
+    } else {
+        base.source = if rng.chance(3, 4) { 0 } else { rng.below(n_v) };
+        base.target = Some(if rng.chance(3, 4) { n_v - 1 } else { rng.below(n_v) });
+    }
+    if base.astar.is_some() && style != LenStyle::Metric && rng.chance(2, 3) {
+        base.astar = None;
+    }
+    match s {
+        Stream::C03 => {
+            // turn delays in most cases
+            if matches!(base.access, Acc::None) && rng.chance(3, 4) {
+                if !base.feats.iter().any(|(n, _, _)| n == "time") {
+                    base.feats.push(("time".into(), FeatK::T(*rng.pick(&TU)), 0.0));
+                }
+                let headings = (0..n_e).map(|_| (rng.range(0, 359) as i16, if rng.chance(1, 3) { None } else { Some(rng.range(0, 359) as i16) })).collect();
+                let mut delays = [None; 8];
+                for d in delays.iter_mut() {
+                    *d = Some(if rng.chance(1, 4) { 0.0 } else { rng.small_decimal(30, 1) });
+                }
+                base.access = Acc::Turn { tu: *rng.pick(&TU), headings, delays };
+            }
+        }
+        Stream::C04 => {
+            if rng.chance(2, 3) {
+                let mut ps = vec![];
+                for _ in 0..(1 + rng.below(5)) {
+                    let a = rng.below(n_e);
+                    let nexts: Vec<usize> = (0..n_e).filter(|e| base.edges[*e].0 == base.edges[a].1).collect();
+                    if !nexts.is_empty() {
+                        ps.push((a, *rng.pick(&nexts)));
+                    }
+                }
+                if !ps.is_empty() {
+                    base.frontier.push(Fr::TurnRestriction(ps));
+                }
+            }
+        }
+        Stream::C10 => {
+            if matches!(&base.term, Term::Combined(ms) if ms.is_empty()) {
+                base.term = match rng.below(3) {
+                    0 => Term::Iters(rng.below(3 * n_v + 3) as u64),
+                    1 => Term::Size(rng.below(2 * n_v + 2)),
+                    _ => Term::Runtime { limit_ns: 1000 * (1 + rng.below(10)) as u64, freq: 1 + rng.below(4) as u64, base_ns: rng.below(3000) as u64, per_ns: (rng.below(4) * 700) as u64 },
+                };
+            }
+        }
+        _ => {}
+    }
+    let yen = rng.chance(1, if s == Stream::C10 { 3 } else { 6 });
+    let mut k_default = *rng.pick(&[1usize, 2, 2, 3, 3, 4, 5, 6]);
+    let sim = if yen {
+        // AcceptAll: the only divergences left are short routes, which get k = 1 below
+        if rng.chance(1, 2) { None } else { Some(Sim::AcceptAll) }
+    } else {
+        match rng.below(6) {
+            0 | 1 | 2 => None,
+            3 => Some(Sim::AcceptAll),
+            4 => Some(Sim::EdgeId(*rng.pick(&[0.5, 0.75, 0.9, 1.0]))),
+            _ => Some(Sim::DistW(rng.uniform(0.3, 0.98))),
+        }
+    };
+    let term = match rng.below(4) {
+        0 | 1 => None,
+        2 => Some(KTerm::Exact),
+        _ => Some(KTerm::MaxIt(rng.below(8) as u64)),
+    };
+    if yen {
+        // Yen only where it provably returns: k = 1 unless the shortest route has three edges or more
+        let long_enough = build(&base).ok().map_or(false, |b| {
+            let probe = KCase { base: base.clone(), yen, k_default, query_k: None, sim: sim.clone(), term: term.clone(), style, bf_ok: false, label: "" };
+            let (plain, _) = plain_run(&probe, &b);
+            matches!(plain_route_len(&probe, &plain), Some(l) if l >= 3)
+        });
+        if !long_enough {
+            k_default = 1;
+        }
+    }
+    KCase { base, yen, k_default, query_k: None, sim, term, style, bf_ok: false, label: "" }
+}
+
+/// the property's own oracle on what a KSP query returned (`unlimited`: the outcome of the same query
+/// without termination limits, for C10)
+fn apply_prop_oracle(ctx: &mut Ctx, idx: usize, s: Stream, kc: &KCase, b: &Built, ex: &KExec, unlimited: Option<&Outcome>) {
+    let mut c = kc.base.clone();
+    c.reverse = false;
+    let reop = reopened(&ex.scheds);
+    match &ex.outcome {
+        Outcome::Ok(r) => {
+            ctx.count("ksp_outcome_ok");
+            ctx.count(&format!("ksp_routes_{}", r.routes.len().min(7)));
+            if r.routes.len() >= 2 {
+                ctx.nontrivial(&outcome_line(&ex.outcome));
+            }
+            // what is judged: every single-via route, the first Yen route; the forward tree
+            let judged = SearchAlgorithmResult {
+                trees: r.trees.iter().take(1).cloned().collect(),
+                routes: if kc.yen { r.routes.iter().take(1).cloned().collect() } else { r.routes.clone() },
+                iterations: r.iterations,
+            };
+            match s {
+                Stream::C01 => oracle_c01(ctx, idx, &c, &judged),
+                Stream::C03 => oracle_c03(ctx, idx, &c, b, &judged, reop),
+                Stream::C04 => {
+                    let with_trees = SearchAlgorithmResult { trees: r.trees.clone(), routes: judged.routes.clone(), iterations: r.iterations };
+                    oracle_c04(ctx, idx, &c, &with_trees, reop)
+                }
+                _ => {}
+            }
+        }
+        Outcome::Err(k) => {
+            ctx.count(&format!("ksp_outcome_err_{}", k.split(' ').next().unwrap_or("")));
+            if k.starts_with("panic") && !k.contains("termination-frequency-zero") {
+                ctx.fail(idx, "search/panic", k.clone());
+            }
+        }
+    }
+    if s == Stream::C10 {
+        oracle_c10_ksp(ctx, idx, kc, ex, unlimited);
+    }
+}
+
+/// C10 on a KSP query: every underlying search respects the limits, and the query either returns
+/// exactly what the unlimited query returns or fails with the explicit `terminated` error
+fn oracle_c10_ksp(ctx: &mut Ctx, idx: usize, kc: &KCase, ex: &KExec, unlimited: Option<&Outcome>) {
+    let c = &kc.base;
+    let mut ls = vec![];
+    limits(&c.term, &mut ls);
+    if ls.is_empty() || ex.scheds.is_empty() {
+        return;
+    }
+    // the hook records expansions; `fix_scheds` appended the final pop of a reached target to runs that returned
+    let t = inner_target(c);
+    for (i, sc) in ex.scheds.iter().enumerate() {
+        let expansions = if sc.last().cloned() == t && !sc.is_empty() { sc.len() - 1 } else { sc.len() };
+        for l in &ls {
+            if let Term::Iters(lim) = l {
+                if expansions as u64 > *lim {
+                    ctx.fail(idx, "limit/iterations-exceeded", format!("underlying search #{} of the k-shortest-paths query made {} expansions under limit {}", i, expansions, lim));
+                }
+            }
+        }
+    }
+    match &ex.outcome {
+        Outcome::Ok(r) => {
+            let Some(unl) = unlimited else { return };
+            let lim_line = outcome_line(&ex.outcome);
+            let unl_line = outcome_line(unl);
+            if lim_line == unl_line {
+                ctx.count("ksp_limited_equals_unlimited");
+                return;
+            }
+            // two runs of the same single-via query may pop equal-priority intersection vertices in
+            // different orders (HashMap iteration): with ties only what does not depend on that order is
+            // compared — both trees, the first route and, under AcceptAll, the number of routes
+            if !kc.yen && r.trees.len() == 2 && intersection_ties(r) {
+                if let Outcome::Ok(ru) = unl {
+                    let trees_eq = ru.trees.len() == 2 && tree_out(&ru.trees[0]) == tree_out(&r.trees[0]) && tree_out(&ru.trees[1]) == tree_out(&r.trees[1]);
+                    let first_eq = match (r.routes.first(), ru.routes.first()) {
+                        (Some(a), Some(b2)) => route_out(a) == route_out(b2),
+                        (None, None) => true,
+                        _ => false,
+                    };
+                    let count_eq = !matches!(kc.sim, None | Some(Sim::AcceptAll)) || r.routes.len() == ru.routes.len();
+                    if trees_eq && first_eq && count_eq {
+                        ctx.count("ksp_limited_equals_unlimited_up_to_tie_order");
+                        return;
+                    }
+                }
+            }
+            // single-via after aa21347: a reverse search stopped by a limit no longer fails the query, the
+            // shortest route is returned alone (one tree); accepted when it IS the unlimited first route
+            if !kc.yen && r.trees.len() == 1 {
+                if let Outcome::Ok(ru) = unl {
+                    let same_first = match (r.routes.first(), ru.routes.first()) {
+                        (Some(a), Some(b2)) => route_out(a) == route_out(b2),
+                        (None, None) => true,
+                        (None, Some(_)) => effective_k(kc) == Some(0),
+                        _ => false,
+                    };
+                    if ru.trees.len() == 2 && r.routes.len() <= 1 && same_first {
+                        ctx.count("ksp_reverse_search_limited_shortest_route_alone");
+                        return;
+                    }
+                }
+            }
+            ctx.fail(idx, "limit/result-differs-from-unlimited", format!("k-shortest-paths ({}) limited: {} unlimited: {}", if kc.yen { "yen" } else { "single-via" }, short(&lim_line), short(&unl_line)));
+        }
+        Outcome::Err(k) if k.starts_with("terminated") => {
+            ctx.count("ksp_terminated");
+            ctx.nontrivial(&format!("{} {}", idx, k));
+            let named: Vec<&str> = k.trim_start_matches("terminated").trim().split(',').filter(|s| !s.is_empty()).collect();
+            if named.is_empty() {
+                ctx.fail(idx, "limit/terminated-without-explanation", k.clone());
+            }
+            for n in &named {
+                let configured = ls.iter().any(|l| matches!((l, *n), (Term::Iters(_), "iterations") | (Term::Size(_), "size") | (Term::Runtime { .. }, "runtime")));
+                if !configured {
+                    ctx.fail(idx, "limit/names-unconfigured-limit", k.clone());
+                }
+            }
+        }
+        _ => {}
+    }
+}
+
+/// two entries of the single-via intersection queue have exactly the same priority
+fn intersection_ties(r: &SearchAlgorithmResult) -> bool {
+    let (fwd, rev) = (&r.trees[0], &r.trees[1]);
+    let mut prios: Vec<u64> = vec![];
+    for (v, fb) in fwd.iter() {
+        if let Some(rb) = rev.get(&fb.terminal_vertex) {
+            if rev.contains_key(v) {
+                let p = fb.edge_traversal.total_cost() + rb.edge_traversal.total_cost();
+                prios.push(p.as_f64().to_bits());
+            }
+        }
+    }
+    let n = prios.len();
+    prios.sort();
+    prios.dedup();
+    prios.len() < n
+}
+
+fn run_single_via_prop(ctx: &mut Ctx, idx: usize, kc: &KCase, s: Stream) {
+    let c = &kc.base;
+    let b = match build(c) {
+        Ok(b) => b,
+        Err(e) => {
+            ctx.count(&format!("ksp_build_refused_{}", e.split(':').next().unwrap_or("")));
+            return;
+        }
+    };
+    let mut ex = exec_ksp(kc, &b, &kc.sim);
+    fix_scheds_single_via(kc, &mut ex);
+    if let Outcome::Ok(r) = &ex.outcome {
+        if threshold_unstable(kc, r) {
+            return;
+        }
+    }
+    let line = format!("ksp {}", encode_k(kc, &b, &ex.scheds, &ex.pops));
+    ctx.emit(idx, line, outcome_line(&ex.outcome));
+    describe_k(ctx, kc);
+    let unlimited = if s == Stream::C10 {
+        let mut k2 = kc.clone();
+        k2.base.term = Term::Combined(vec![]);
+        build(&k2.base).ok().map(|b2| exec_ksp(&k2, &b2, &k2.sim).outcome)
+    } else {
+        None
+    };
+    apply_prop_oracle(ctx, idx, s, kc, &b, &ex, unlimited.as_ref());
+}
+
+/// the KSP stream of a search property, appended to its ordinary cases
+pub fn run_prop_stream(ctx: &mut Ctx, s: Stream) {
+    let n = prop_corpus(s).len() + ctx.n(160, 4000);
+    let mut yen_items: Vec<(usize, usize, KCase)> = vec![];
+    for j in 0..n {
+        let Some(idx) = ctx.begin() else { continue };
+        let kc = prop_case_at(s, ctx.seed, ctx.quick(), j);
+        ctx.count("ksp_case");
+        if kc.yen {
+            yen_items.push((idx, j, kc));
+        } else {
+            run_single_via_prop(ctx, idx, &kc, s);
+        }
+    }
+    run_yen_batch_stream(ctx, s, yen_items);
 }
 
 // ---------------------------------------------------------------------------------------------
